@@ -42,7 +42,8 @@ Definition seg_with_sel (g : segment) (i : N) : segment :=
 Definition seg_clear (g : segment) : segment :=
   mkSeg SVoid (s_start g) (s_end g) (s_length g) [] None 0%N [].
 
-Definition seg_info (g : segment) : seginfo := mkSegInfo (s_start g) (s_end g) (s_tags g).
+Definition seg_info (opts : list (bytes * bool)) (g : segment) : seginfo :=
+  mkSegInfo (s_start g) (s_end g) (s_tags g) opts.
 
 (** [Segment::GetCandidateAt] / [GetSelectedCandidate] *)
 Definition cand_at (g : segment) (i : N) : option cand :=
